@@ -153,6 +153,8 @@ def gen_consts():
     lines.append("")
     for e in ERRNOS:
         lines.append("def %s : Nat := %d" % (e, vals[e]))
+    lines.append("")
+    lines.append("def errnoTable : List (String × Nat) := [%s]" % ", ".join('("%s", %d)' % (e, vals[e]) for e in ERRNOS))
     lines += ["", "end XcmModel.Generated", ""]
     return "\n".join(lines), missing
 
